@@ -51,6 +51,8 @@ def atom_interval(a):
             return (0, INF)
         if a[0] == "uh":
             return (1, INF)      # a user supplied handle that passed the "is set" (non-zero) validation
+        if a[0] == "h":
+            return (3, INF)      # some descriptor number above the standard streams
         if a[0] in ("addr", "mem", "fn", "str", "pid"):
             return (1, INF)
         if a[0] == "sym":
@@ -286,7 +288,7 @@ class Interp:
             if (a in ("NEG", "POS") and is_int(b) and b in self.Kset) or (b in ("NEG", "POS") and is_int(a) and a in self.Kset):
                 may = False
             fail = not (single and la == lb)
-            if a == b and isinstance(a, tuple) and a[0] in ("fd", "pid", "mem", "addr", "sym") and "many" not in a:
+            if a == b and isinstance(a, tuple) and a[0] in ("fd", "pid", "mem", "addr", "sym", "h") and "many" not in a:
                 fail = False    # one and the same runtime value
             if a != b and ((isinstance(a, tuple) and a[0] == "sym" and str(a[1]).startswith("distinct:")) or
                            (isinstance(b, tuple) and b[0] == "sym" and str(b[1]).startswith("distinct:"))):
